@@ -3168,6 +3168,56 @@ def _judge_match(test, polarity, keyd, reqd, prog=None, f=None, depth=0):
 # ---------------------------------------------------------------------------
 
 
+def _rule6(ctx, rep):
+    """persist first, index second (added after seeded change C08-3: util.append appended the name to the in-memory index
+    before the shelf write; a failing write then left a name in the index that the table lacks, every later id of that
+    table skipped a number and the index rebuilt at reopen was shifted)"""
+    prog = ctx.prog
+    f = prog.nfunc('dawgie.db.shelve.util.append')
+    rep.analysed(f)
+    with rep.rule(
+        'R-C08-6',
+        'allocator ordering: in util.append the store into the persisted table precedes the append to the in-memory index on every path, so a failing store leaves table and index paired',
+        floor=1,
+        breaks='a write error of the shelf leaves a name in the index without a table entry: later ids of that table are no longer gap-free and change at reopen',
+    ) as r:
+        ps = f.params()
+        table, index = (ps[1], ps[2]) if len(ps) >= 3 else (None, None)
+
+        class Ord(Flow):
+            def __init__(s):
+                super().__init__()
+                s.bad = []
+
+            def on_stmt(s, node, st):
+                if isinstance(node, ast.Assign) and any(isinstance(t, ast.Subscript) and isinstance(t.value, ast.Name) and t.value.id == table for t in node.targets):
+                    return ('stored',)
+                return (st,)
+
+            def on_call(s, call, st):
+                fn = call.func
+                if isinstance(fn, ast.Attribute) and isinstance(fn.value, ast.Name):
+                    if fn.value.id == table and fn.attr in ('__setitem__', 'setdefault', 'update'):
+                        return ('stored',)
+                    if fn.value.id == index and fn.attr in ('append', 'insert', 'extend') and st != 'stored':
+                        s.bad.append(call)
+                return (st,)
+
+        fl = Ord()
+        fl.run(f.node, 'pre')
+        apps = [c for c in f.calls() if isinstance(c.func, ast.Attribute) and isinstance(c.func.value, ast.Name) and c.func.value.id == index and c.func.attr in ('append', 'insert', 'extend')]
+        if table is None or not apps:
+            raise AnalysisError('db.shelve.util.append: (name, table, index, ...) signature or the index append not found')
+        r.instance()
+        r.check(
+            not fl.bad,
+            f'{f.qname}:persist-before-index',
+            where(f, fl.bad[0] if fl.bad else apps[0]),
+            'table[name] = id is executed before index.append(name)',
+            f'{f.qname} appends the name to the in-memory index before (or without) storing it in the persisted table: if that store raises, index and table disagree from then on',
+        )
+
+
 def check(ctx):
     rep = Report(
         PID,
@@ -3205,12 +3255,14 @@ def check(ctx):
     _rule3(ctx, rep, M, E3)
     _rule4(ctx, rep, M, E3)
     _rule5(ctx, rep, M, E3)
+    _rule6(ctx, rep)
     return rep
 
 
 U, I, ST, CM, WM, PO = 'db/shelve/util.py', 'db/shelve/__init__.py', 'db/shelve/state.py', 'db/shelve/comms.py', 'db/tools/worm.py', 'db/post/__init__.py'
 _FIXED_PRED = 'lambda t, p=parent, n=name: dissect(t[0])[:2] == (p, n),'
 VARIANTS = [
+    V('index appended before the table store', 'B', 'db/shelve/util.py', 'append', 'table[name] = len(index)\n        index.append(name)', 'index.append(name)\n        table[name] = len(index) - 1', 'R-C08-6'),
     # ---- breaking (the old text of the first three exists only once the pending fix C08-1 is applied)
     V('subset: prefix test on the constructed name again', 'B', U, 'subset', _FIXED_PRED,
       'lambda t, sn=construct(name, parent): t[0].startswith(sn),', 'R-C08-3'),
